@@ -25,6 +25,8 @@ package proxy
 // a rewritten response: the length field and the Content-Length header are the number of bytes of the new body,
 // the Content-Encoding header is the one the body was re-encoded under
 //@   ensures implies(result == nil && r.Body != old(r.Body), r.ContentLength == len(in(r.Body)) && header(r.Header, "Content-Length") == itoa(len(in(r.Body))) && header(r.Header, "Content-Encoding") == old(header(r.Header, "Content-Encoding")))
+// the new body is made from the whole old body: nothing of it is left unread
+//@   ensures implies(result == nil && r.Body != old(r.Body), in(old(r.Body)) == "")
 // an error leaves the headers alone
 //@   ensures implies(result != nil, headers(r.Header) == old(headers(r.Header)) && r.ContentLength == old(r.ContentLength))
 
